@@ -1,134 +1,13 @@
 /-
-  The engine: clause activation, the definition table, `YP.query`, the dynamic fact store and
-  the builtin predicates, `evaluate_bounded`.
+  The engine: definitions, the fact store, the builtins, `query`.
 
-  Model of: engine.py  YP.query / match_dynamic / _match_all_clauses / Answer / rename_variables /
-            assert_fact / asserta / assertz / retract / retractall / clear / call / once / findall /
-            builtin_eq / builtin_neq / register_function / load_script_from_string / chain_functions;
-            yp_generator.py  compile_function_body / compile_function (clause activation).
+  Model of: src/yldprolog/engine.py        YP.query, match_dynamic, assert_fact, asserta/z,
+                                           retract, retractall, call, once, findall,
+                                           register_function, load_script_from_string
+  (clause activation: Yld.Model.Clause; the emitted Python and its semantics: Emit, Py)
 -/
-import Yld.Model.Body
+import Yld.Model.Clause
 namespace Yld
-
-/-! ### Clauses and their activation -/
-
-structure Clause where
-  head : List STerm
-  body : Body
-deriving Repr, Inhabited, BEq
-
-/-- All clauses of one name/arity from one script: becomes one generator function. -/
-structure Pred where
-  name : String
-  arity : Nat
-  clauses : List Clause
-deriving Repr, Inhabited, BEq
-
-def dedup (xs : List String) : List String :=
-  xs.foldl (fun acc x => if acc.contains x then acc else acc ++ [x]) []
-
-/-- `find_clause_head_variable_arguments`: position ↦ variable name when the head argument is
-    a plain variable that occurs once among the top-level head arguments. -/
-def headAlias (head : List STerm) : List (Option String) :=
-  let tops := head.filterMap fun a => match a with | .var v => some v | _ => none
-  head.map fun a => match a with
-    | .var v => if tops.count v = 1 then some v else none
-    | _ => none
-
-/-- What `compile_function_body` emits around the body code of one clause. -/
-structure ClauseCode where
-  aliases : List (String × Nat)      -- `V = arg<i+1>`
-  declsHead : List String            -- `V = variable()`
-  declsBody : List String
-  unifs : List (Nat × STerm)         -- `for l in unify(arg<i+1>, expr):`, outermost first
-  code : List Code
-deriving Repr, Inhabited
-
-def compileClause (c : Clause) (n : Nat) : ClauseCode × Nat :=
-  let al := headAlias c.head
-  let aliases := (al.zipIdx).filterMap fun (o, i) => o.map fun v => (v, i)
-  let bound1 := aliases.map (·.1)
-  let headVars := (c.head.map STerm.vars).flatten
-  let declsHead := dedup (headVars.filter fun v => !bound1.contains v)
-  let bound2 := bound1 ++ declsHead
-  let declsBody := dedup (c.body.vars.filter fun v => !bound2.contains v)
-  let (code, n') := comp c.body [] n
-  let unifs := ((c.head.zip al).zipIdx).filterMap fun ((t, o), i) =>
-    match o with | none => some (i, t) | some _ => none
-  ({ aliases, declsHead, declsBody, unifs, code }, n')
-
-/-- Compile all clauses of a predicate, threading `cut_if_counter`. -/
-def compileClauses : List Clause → Nat → List ClauseCode × Nat
-  | [], n => ([], n)
-  | c :: cs, n =>
-      let (cc, n1) := compileClause c n
-      let (ccs, n2) := compileClauses cs n1
-      (cc :: ccs, n2)
-
-def compilePred (p : Pred) (n : Nat) : List ClauseCode × Nat := compileClauses p.clauses n
-
-/-- Allocate one `variable()` per name. -/
-def allocVars (names : List String) (env : Env) (w : World) : Env × World :=
-  names.foldl (fun (env, w) v => let (x, w') := w.fresh; (env ++ [(v, .var x)], w')) (env, w)
-
-/-- How a clause body is run: compiled code or the reference semantics. -/
-inductive Mode where
-  | compiled      -- the generated code: clause activation and body as emitted
-  | reference     -- textbook activation + reference semantics of the body
-  | refbody       -- the activation of the generated code + reference semantics of the body
-deriving Repr, BEq, DecidableEq
-
-/-- Nested `for l in unify(arg_i, expr_i)` loops. -/
-def unifyHead (fuel : Nat) (env : Env) (args : List Term) : List (Nat × STerm) → Gen → Gen
-  | [], g => g
-  | (i, t) :: rest, g => fun k w =>
-      unify fuel (args.getD i (.atom "$noarg")) (t.eval env)
-        (fun w' => unifyHead fuel env args rest g k w') w
-
-/-- One clause of a generated function, run on `args`. -/
-def runClauseCompiled (fuel : Nat) (q : Q) (cc : ClauseCode) (args : List Term) : Gen := fun k w =>
-  let env0 : Env := cc.aliases.map fun (v, i) => (v, args.getD i (.atom "$noarg"))
-  let (env1, w1) := allocVars cc.declsHead env0 w
-  let (env2, w2) := allocVars cc.declsBody env1 w1
-  unifyHead fuel env2 args cc.unifs (execList q env2 cc.code) k w2
-
-/-- The activation the generated code performs, with the body under the reference semantics
-    (the bridge between `compiled` and `reference`: Theorem A is about the body). -/
-def runClauseRefBody (fuel : Nat) (q : Q) (cc : ClauseCode) (body : Body) (args : List Term) : Gen := fun k w =>
-  let env0 : Env := cc.aliases.map fun (v, i) => (v, args.getD i (.atom "$noarg"))
-  let (env1, w1) := allocVars cc.declsHead env0 w
-  let (env2, w2) := allocVars cc.declsBody env1 w1
-  unifyHead fuel env2 args cc.unifs (solve q env2 0 body) k w2
-
-/-- Textbook clause activation: a new variable for every variable of the clause, head
-    arguments unified left to right, then the body under the reference semantics. -/
-def runClauseRef (fuel : Nat) (q : Q) (c : Clause) (args : List Term) : Gen := fun k w =>
-  let names := dedup ((c.head.map STerm.vars).flatten ++ c.body.vars)
-  let (env, w1) := allocVars names [] w
-  unifyHead fuel env args (c.head.zipIdx.map fun (t, i) => (i, t)) (solve q env 0 c.body) k w1
-
-/-- Signals of the caller's loop body travel through this frame as `up s`. -/
-def wrapK (k : K) : K := fun w =>
-  match k w with
-  | (w', some s) => (w', some (.up s))
-  | r => r
-
-/-- Leaving a generator function: its own `return` ends it normally; the caller's reason for
-    abandoning it is handed back. -/
-def leaveFrame : R → R
-  | (w, some .ret) => (w, none)
-  | (w, some (.brk _)) => (w, none)      -- never produced by compiled code (every brk has its block)
-  | (w, some (.commit _)) => (w, none)   -- never produced (every commit is consumed by its if-then-else)
-  | (w, some (.up s)) => (w, some s)
-  | r => r
-
-/-- The clauses of one function, in order; `return` (cut) skips the later ones. -/
-def runClauses (run : α → Gen) : List α → Gen
-  | [], _, w => (w, none)
-  | c :: cs, k, w =>
-      match run c k w with
-      | (w', none) => runClauses run cs k w'
-      | r => r
 
 /-! ### Definitions -/
 
@@ -151,8 +30,6 @@ abbrev Defs := List (String × List Def)
 
 def Defs.get (d : Defs) (key : String) : Option (List Def) := d.lookup key
 
-def predKey (name : String) (arity : Nat) : String := name ++ "_" ++ toString arity
-def variadicKey (name : String) : String := name ++ "_n"
 
 /-! ### The fact store -/
 
